@@ -560,13 +560,12 @@ func classify(e ast.Expr, local map[string]string) string {
 	case "peer.Send()", "peer.Recv()", "p.Recv()":
 		return "ChPeer"
 	}
+	// fields of the reply-waiter record, however the record was obtained
 	if strings.HasSuffix(s, ".gone") {
 		return "ChGone"
 	}
 	if strings.HasSuffix(s, ".ch") {
-		if id := strings.TrimSuffix(s, ".ch"); local[id] == "ChReplyWaiter" {
-			return "ChReply"
-		}
+		return "ChReply"
 	}
 	if c, ok := local[s]; ok {
 		return c
